@@ -206,7 +206,7 @@ fn prover_case<P: G>(cfg: Cfg) -> Box<dyn Case> {
             wit.seed = Some(seed_scalar(6));
         }
         let built = build_cached::<P>(&cfg, &wit).honest();
-        let proof = lib_prove(&built, &CTX_A, &mut HRng::chacha(9)).honest();
+        let proof = lib_prove_honest(&built, &CTX_A, &mut HRng::chacha(9));
         let bytes = P::to_bytes(&proof);
         res.executions += 1;
         res.validated += 1;
